@@ -28,6 +28,8 @@ import (
 //   stall  K connections that never complete their handshake, then a good peer
 //   reject a burst of K peers whose handshake is complete and wrong (stream header, TLS, websocket
 //          subprotocol, failing Accept), then a good peer; further rounds (reject_test.go)
+//   flood  K broken peers of a cooked SURVEYOR / REQ socket answer the current id over and over
+//          while the application abandons, expires and closes what they answer (flood_test.go)
 //
 // A panic in a library goroutine kills the child process; the driver reports the
 // running case as crashed.  Every injection is written to stderr before it is made.
@@ -47,6 +49,12 @@ type spec struct {
 	// Late: the receive limit is not the socket's when the listener is made but is set on the
 	// listener itself after Listen; connections accepted afterwards are held to it
 	Late bool `json:"late,omitempty"`
+	// flood: contexts besides the socket's own, answers a peer keeps unread at most (vt) or gives to each
+	// request/survey in a row (real transports), survey time (microseconds), receive queue length (0: default)
+	Ctx int `json:"ctx,omitempty"`
+	W   int `json:"w,omitempty"`
+	ST  int `json:"st_us,omitempty"`
+	Q   int `json:"q,omitempty"`
 }
 
 func TestMain(m *testing.M) { hx.Main(m) }
@@ -170,6 +178,24 @@ func TestC16(t *testing.T) {
 		}
 	}
 
+	// peers that answer over and over while the application abandons, expires and closes what they
+	// answer (appended last, as above)
+	for rep := 0; rep < r.Pick(4, 40); rep++ {
+		for j, s := range []string{"surveyor", "surveyor", "surveyor", "req"} {
+			sp := spec{Kind: "flood", Sock: s, K: []int{2, 4, 6, 8}[rnd.Intn(4)], Ctx: []int{0, 0, 1, 3}[rnd.Intn(4)],
+				W: []int{4, 16, 64}[rnd.Intn(3)], N: r.Pick(100, 300) + rnd.Intn(r.Pick(200, 500))}
+			if tr := []string{"inproc", "tcp", "ipc"}[rnd.Intn(3)]; j == 2 || j == 3 && rep%2 == 1 {
+				sp.Tr = tr // peers are raw sockets behind a real transport
+				sp.W /= 2  // answers in a row to each request/survey: 2, 8, 32
+			}
+			if s == "surveyor" {
+				sp.ST = []int{200, 500, 1000, 3000}[rnd.Intn(4)]
+				sp.Q = []int{0, 0, 1, 8}[rnd.Intn(4)]
+			}
+			cases = append(cases, mon.CaseSpec{Name: "flood", Spec: sp})
+		}
+	}
+
 	r.Run(cases, func(c *mon.Case) {
 		sp := c.Spec.(spec)
 		defer func() {
@@ -198,6 +224,8 @@ func TestC16(t *testing.T) {
 			caseReject(c, sp)
 		case "wsdial":
 			caseWSDial(c, sp)
+		case "flood":
+			caseFlood(c, sp)
 		}
 		hx.LedgerCheck(c)
 	})
